@@ -85,6 +85,19 @@ Fixpoint g_wf (v : json) : bool :=
   end.
 Definition vg (v : json) : bool := all_finite v && g_uniq v && g_wf v.
 
+(* class 8: when the value was decoded with UseNumber, enum members other than plain numbers
+   contain no number (reflect.DeepEqual would never match them) *)
+Fixpoint number_free (v : json) : bool :=
+  match v with
+  | JNum _ => false
+  | JArr l => forallb number_free l
+  | JObj l => forallb (fun kv => number_free (snd kv)) l
+  | _ => true
+  end.
+Definition g_enum_here (usenum : bool) (c : score) : bool :=
+  negb usenum || forallb (fun m => match m with JNum _ => true | _ => number_free m end) (c_enum c).
+Definition g_enum (usenum : bool) : schema -> bool := all_sub (fun s => g_enum_here usenum (core_of s)).
+
 Definition here_ok (rc : string -> bool) (s : schema) : bool :=
   g_empty_here s && g_excl_here (core_of s) && g_small_here (core_of s) &&
   g_pattern_here rc (core_of s) &&
